@@ -264,11 +264,18 @@ def typestate(ctx, g, body, src_idx, dst_idx, rank_writers):
                     rank = True
                 continue
             l = pl[0]
+            if rv['k'] == 'aggr' and rv['ak'].get('variant') in ('Err', 'Ok', 'None', 'Some') and l != 0 and 'Result' in body.local_ty(l) + body.local_ty(0):
+                # a result built in a local first (e.g. the return place of a helper that was inlined) and moved to the return place later
+                v = rv['ak']['variant']
+                pay = rv['ops'][0].get('k', {}).get('int') if rv['ops'] and 'k' in rv['ops'][0] else None
+                env[('ret', l)] = v if pay is None else '%s(%s)' % (v, pay)
             if l == 0:
                 if rv['k'] == 'aggr' and rv['ak'].get('variant') in ('Err', 'Ok', 'None', 'Some'):
                     v = rv['ak']['variant']
                     pay = rv['ops'][0].get('k', {}).get('int') if rv['ops'] and 'k' in rv['ops'][0] else None
                     ret = v if pay is None else '%s(%s)' % (v, pay)
+                elif rv['k'] == 'use' and F.operand(rv['op'])[0] in ('c', 'm') and not F.operand(rv['op'])[1][1] and env.get(('ret', F.operand(rv['op'])[1][0])) is not None:
+                    ret = env[('ret', F.operand(rv['op'])[1][0])]
                 else:
                     ret = '?'
                 continue
@@ -348,6 +355,8 @@ def typestate(ctx, g, body, src_idx, dst_idx, rank_writers):
                     if is_param(ko, src_idx) or is_param(ko, dst_idx):
                         res = True
             if not dest[1]:
+                if dest[0] != 0 and call.qname == 'std::ops::FromResidual::from_residual' and 'Result' in body.local_ty(dest[0]):
+                    env[('ret', dest[0])] = 'Err'
                 if dest[0] == 0:
                     # `x?` returning early: from_residual builds the Err (or None) that is returned
                     ret = 'Err' if call.qname == 'std::ops::FromResidual::from_residual' and 'Result' in body.local_ty(0) else '?call'
@@ -1169,6 +1178,20 @@ def decision_avoid(ctx, body, is_x, is_y, order):
     return avoid
 
 
+def _ret_defs(b, local=0, depth=0):
+    """definitions of the value returned: those of the return place, looking through moves of a whole local into it (the return place of
+    a helper that was inlined is such a local)"""
+    out = []
+    for d in b.defs.get(local, []):
+        if d[0] == 'stmt' and d[3]['k'] == 'use' and depth < 4:
+            op = b.facts.operand(d[3]['op'])
+            if op[0] in ('c', 'm') and not op[1][1] and b.defs.get(op[1][0]):
+                out += _ret_defs(b, op[1][0], depth + 1)
+                continue
+        out.append(d)
+    return out
+
+
 def rule_graph_cycle(ctx):
     R, F = ctx.R, ctx.F
     g = getattr(ctx, 'g', None) or resolve_graph(ctx)
@@ -1186,7 +1209,7 @@ def rule_graph_cycle(ctx):
         ok = bool(te)
         for e in te:
             seen = ae.reach([e], avoid=inf)
-            defs = [d for d in ae.defs.get(0, []) if d[1] in seen]
+            defs = [d for d in _ret_defs(ae) if d[1] in seen]
             for d in defs:
                 if d[0] == 'stmt' and d[3]['k'] == 'aggr' and d[3]['ak'].get('variant') == 'Err':
                     po = ae.orig_operand(F.operand(d[3]['ops'][0]))
@@ -1232,7 +1255,7 @@ def rule_graph_cycle(ctx):
         return False
     seen = ae.reach([fc.bb], avoid=ctx.both(inf, avoid_ok))
     kinds = set()
-    for d in ae.defs.get(0, []):
+    for d in _ret_defs(ae):
         if d[1] in seen and d[1] != fc.bb:
             if d[0] == 'stmt' and d[3]['k'] == 'aggr':
                 v = d[3]['ak'].get('variant')
